@@ -58,7 +58,26 @@ T = {
             "copy assignment between optimizers whose spatial-map instances give different per-point dimensions"),
  "S2-C16": ("C16", "PPolyND::update fast path: same breakpoint count and order => data copied without the coefficient-row check",
             "an initialised PPolyND updated with the same layout but the wrong number of coefficient rows"),
- "S2-C11": ("C11", "", ""),
+ "S2-C02": ("C02", "CubicSplineND::solveSpline keeps its divided-difference scratch matrix as a grow-only member; bottomRows() then reads rows left by an earlier, larger problem",
+            "the same cubic object solved first with more segments, then reused with fewer (at least 2)"),
+ "S2-C03": ("C03", "batch PPolyND::evaluate carries the segment index between samples and treats the current segment as closed on the right",
+            "a batch sample exactly on an interior breakpoint, reached from the segment to its left; a derivative order that jumps there"),
+ "S2-C04": ("C04", "QuinticSplineND::getEnergy caches its result; the time-point update overload does not drop the cached value",
+            "quintic object: getEnergy, then update(t_points, ...), then getEnergy again"),
+ "S2-C05": ("C05", "QuinticSplineND::propagateGradInternal skips segments whose upstream coefficient rows pass Eigen's isZero() tolerance test",
+            "an upstream gradient with a segment whose entries are all non-zero but below 1e-12"),
+ "S2-C06": ("C06", "QuinticSplineND::getEnergyPartialGradByCoeffs (out-parameter overload) only sizes and zeroes the buffer when its row count differs",
+            "a reused output buffer of the right size with non-zero rows for powers 0..2"),
+ "S2-C11": ("C11", "the spline classes rebuild their PPolyND lazily (dirty flag set by update, rebuild in the accessors)",
+            "a reference to getTrajectory() kept across a later update() and evaluated without calling an accessor again"),
+ "S2-C13": ("C13", "QuinticSplineND::getEnergyGradInnerPoints rewritten over a strided Eigen::Map of the coefficient storage",
+            "DIM == 1 (column-major storage), N >= 2"),
+ "S2-C14": ("C14", "QuinticSplineND::solveInternalDerivatives: end-boundary right-hand-side correction moved into the else arm of the first-block test",
+            "quintic, N == 2, non-zero end velocity / acceleration (time-reversal symmetry)"),
+ "S2-C17": ("C17", "IdentityTimeMap::backward: parameters renamed so that the returned value is the second positional argument (the duration)",
+            "SplineOptimizer instantiated with IdentityTimeMap and a duration gradient different from the duration"),
+ "S2-C20": ("C20", "batch PPolyND::evaluate carries the segment index between samples and treats the current segment as closed on the right",
+            "generateTimeSequence producing a sample exactly on an interior breakpoint (integer knots, dt = 0.5) and a derivative that jumps there"),
 }
 EXTRA = os.path.join(V, "seeded", "extra_meta.json")
 if os.path.exists(EXTRA):
